@@ -6,7 +6,8 @@ import common
 from common import hexs
 
 TRANSLATORS = ['t_step', 't_interp']
-TRUSTED = ['the ROBSD_VERIF sync-point hook in step.c (verif.h), this scheduler (FIFO + SIGSTOP/SIGCONT, /proc/<pid>/wchan to tell "blocked in flock")',
+TRUSTED = ['tools/chaos_preload.c (LD_PRELOAD delay shim of the undriven lane)',
+           'the ROBSD_VERIF sync-point hook in step.c (verif.h), this scheduler (FIFO + SIGSTOP/SIGCONT, /proc/<pid>/wchan to tell "blocked in flock")',
            'ASSUMED, not verified: flock(2) grants LOCK_EX to one holder at a time and releases it at LOCK_UN/exit; each syscall between two sync points is atomic; '
            'fopen("w") truncates at open; a process\'s output and exit status depend only on the content it read',
            'schedules are driven at sync-point granularity for 2-4 processes; the theorem quantifies over all schedules of any number of processes']
@@ -309,6 +310,62 @@ def evaluate(ctx, cases, res):
     return res
 
 
+def build_chaos(ctx):
+    d = ctx.mkscratch('chaos')
+    so = os.path.join(d, 'chaos.so')
+    r = common.sh(['cc', '-shared', '-fPIC', '-O1', os.path.join(common.VERIF, 'tools', 'chaos_preload.c'), '-o', so, '-ldl'])
+    if r.returncode != 0:
+        raise common.BuildFailure('chaos_preload: ' + r.stdout[-800:])
+    return so
+
+
+def undriven(ctx, impl, drv, res, rounds):
+    """No sync points: all processes of a case are started at once under the delay shim; only the serialisability
+    oracle applies (there is no event trace to replay on the model)."""
+    import shutil, tempfile
+    so = build_chaos(ctx)
+    base = ctx.mkscratch('c02u')
+    for k in range(rounds):
+        case = gen_case(ctx.rng)
+        case['sched'] = []
+        work = tempfile.mkdtemp(dir=base)
+        path = os.path.join(work, 'step.csv')
+        open(path, 'wb').write(bytes.fromhex(case['init']))
+        procs = []
+        env = dict(os.environ, LD_PRELOAD=so, CHAOS_MAX_US='3000', CHAOS_SEED=str(ctx.seed * 100003 + k))
+        env.pop('ROBSD_VERIF_SYNC', None)
+        for i, o in enumerate(case['ops']):
+            if o['kind'] == 'w':
+                args = [os.path.join(impl, 'robsd-step'), '-W', '-f', path, '-i', o['id'], '--'] + o['kvs']
+                procs.append(subprocess.Popen(args, env=env, stdin=subprocess.DEVNULL, stdout=subprocess.PIPE, stderr=subprocess.PIPE))
+            else:
+                args = [os.path.join(impl, 'robsd-step'), '-R', '-f', path, '-' + o['how'], o['arg']]
+                p = subprocess.Popen(args, env=env, stdin=subprocess.PIPE, stdout=subprocess.PIPE, stderr=subprocess.PIPE)
+                p.stdin.write(o['template'].encode())
+                p.stdin.close()
+                procs.append(p)
+        reps = []
+        for p in procs:
+            try:
+                p.wait(timeout=20)
+                reps.append('%d:%s' % (p.returncode, hexs(p.stdout.read())))
+            except subprocess.TimeoutExpired:
+                p.kill()
+                reps.append('999:-')
+        final = open(path, 'rb').read()
+        shutil.rmtree(work, ignore_errors=True)
+        optoks = [str(len(case['ops']))]
+        for o in case['ops']:
+            optoks += op_toks(o)
+        a = common.run_driver(drv, [' '.join(['serial', case['init'] or '-', hexs(final)] + optoks + reps)])[0]
+        res.evaluations += 1
+        res.count('undriven procs=%d' % len(case['ops']))
+        if a != '1':
+            res.oracle_failures.append({'case': dict(case, undriven=True, chaos_seed=ctx.seed * 100003 + k), 'signature': 'not-serialisable',
+                                        'what': 'undriven run under the delay shim: final file / reports of %d concurrent robsd-step processes equal no serial order' % len(case['ops']),
+                                        'final': final.decode('latin1'), 'reports': reps})
+
+
 def load_corpus():
     return [json.load(open(p)) for p in sorted(glob.glob(os.path.join(common.VERIF, 'corpus', 'C02', '*.json')))]
 
@@ -324,6 +381,7 @@ def run(ctx, n=None):
     res.samples = cases[:2]
     evaluate(ctx, cases, res)
     res.traces_validated = res.evaluations
+    undriven(ctx, ctx.build_impl(), ctx.build_driver('lk'), res, ctx.budget(150, 3000) if n >= 250 else max(20, n // 2))
     return res
 
 
